@@ -217,6 +217,7 @@ type ShardResult struct {
 	Samples     []any          `json:"samples"`
 	Violations  []*Violation   `json:"violations"`
 	HarnessErrs []string       `json:"harness_errors"`
+	Unstable    []*Violation   `json:"unstable"`
 	WallS       float64        `json:"wall_s"`
 	Extra       map[string]any `json:"extra,omitempty"`
 }
@@ -414,8 +415,13 @@ func (e *Explorer) account(t *testing.T, x *X, pan any, stack string) {
 			if len(x.fails) > 0 {
 				first = trunc(x.fails[0].Message, 1500)
 			}
-			e.res.HarnessErrs = append(e.res.HarnessErrs,
-				fmt.Sprintf("nondeterministic verdict for choices %v: %q vs %q; first run reported: %s", picks(x.Trace), sigs, s2, first))
+			// The verdict depends on something outside the choice vector (e.g. state the implementation keeps per
+			// process, carried over from earlier executions of this shard). The runner re-executes the vector in a
+			// fresh process and believes only what is reproducible there.
+			if len(e.res.Unstable) < 20 {
+				v := &Violation{Property: e.Property, Signature: "unstable verdict: " + sigs + " vs " + s2, Message: first, Choices: picks(x.Trace), Trace: x.Trace, Log: x.logs, Count: 1, Shard: e.Shard}
+				e.res.Unstable = append(e.res.Unstable, v)
+			}
 			return
 		}
 	}
